@@ -33,12 +33,15 @@ from engines.common import AnalysisError, Ctx
 META = dict(
     category='other',
     text='Structural writer/reader agreement of the JSON converters of all 20 HailType subclasses: pairing of overrides, key sets, '
-         'per-key component converters, constructor-role correspondence, float tokens, missing-aware recursion, freeze propagation, '
-         'call-string tokens and ndarray order. Every rule is a necessary condition of the round trip; value equality itself is not decided, '
-         'hence level "other".',
+         'per-key component converters, constructor-role correspondence (incl. type parameters carried by the value), float tokens, missing-aware recursion, '
+         'freeze propagation, call-string tokens and ndarray order; path-sensitive component coverage (a component converter may only be skipped under a type guard '
+         'that admits classes whose converter is the identity - guards are evaluated from the module\'s own class tables); purity of every converter (no state that '
+         'outlives the call is read back, or a memo keyed by every input of the remembered value). Every rule is a necessary condition of the round trip; value '
+         'equality itself is not decided, hence level "other".',
     note='Trusted: CPython ast; float(str(x)) round-trips nan/inf/-inf (CPython float.__str__ / float.__new__ contract); json maps None<->null. '
          'Not decided: value equality after the round trip, numpy dtype conversions.',
-    technique='static analysis: AST extraction of key tables, converter-call tables and token tables on both directions, compared symbolically',
+    technique='static analysis: AST extraction of key tables, converter-call tables and token tables on both directions, compared symbolically; path enumeration with '
+              'type-guard evaluation over the module\'s class tables; def-use based state / memo-key analysis',
     design_ref='DESIGN.md §3 C32',
 )
 
@@ -663,14 +666,40 @@ class _Path:
         return _Path(self.conds + tuple(conds), self.roles | frozenset(roles), end or self.end)
 
 
-def _paths(fn: pf.FuncDef, names: Tuple[str, ...], include_self: bool = False) -> List[_Path]:
+def _paths(fn: pf.FuncDef, names: Tuple[str, ...], include_self: bool = False, helpers: Optional[Dict[str, pf.FuncDef]] = None, _depth: int = 0) -> List[_Path]:
     """Feasible-by-syntax paths of a converter: branch decisions taken and the component roles whose converter (one of `names`) is applied.
-    include_self: also count `self.<converter>(...)` (role 'self') - used for the base-class entry points."""
+    include_self: also count `self.<converter>(...)` (role 'self') - used for the base-class entry points.
+    helpers: 'self.h' / 'Cls.h' / 'h' -> definition of same-module helpers; a call to one counts as applying the converters its body applies
+    (when that does not depend on the helper's own branches; otherwise the analysis declines)."""
     where = f'{F}::{fn.name}'
+    helpers = helpers or {}
+    helper_roles: Dict[str, frozenset] = {}
+
+    def roles_of_helper(call: ast.Call) -> Optional[frozenset]:
+        d = pf.dotted(call.func)
+        if d is None or d not in helpers or _depth >= 3:
+            return None
+        if d not in helper_roles:
+            h = helpers[d]
+            ps_ = _paths(h, names, include_self, {k: v for k, v in helpers.items() if v is not h}, _depth + 1)
+            rs = {p_.roles for p_ in ps_}
+            if len(rs) > 1:
+                raise AnalysisError(f'{where}: helper {d} applies component converters on some of its paths only (unrecognised idiom)')
+            # roles are named from the helper's own expressions (self.element_type, ...): the same names the caller would use
+            helper_roles[d] = next(iter(rs)) if rs else frozenset()
+        return helper_roles[d]
 
     def is_conv(e: ast.AST) -> bool:
+        if isinstance(e, ast.Call) and roles_of_helper(e):
+            return True
         return (isinstance(e, ast.Call) and isinstance(e.func, ast.Attribute) and e.func.attr in names
                 and (include_self or pf.nsrc(e.func.value) not in ('self', 'super()')))
+
+    def conv_roles(e: ast.Call) -> frozenset:
+        hr = roles_of_helper(e)
+        if hr:
+            return hr
+        return frozenset([_role(fn, e.func.value)])
 
     def has_conv(e: ast.AST) -> bool:
         return any(is_conv(x) for x in ast.walk(e))
@@ -694,7 +723,7 @@ def _paths(fn: pf.FuncDef, names: Tuple[str, ...], include_self: bool = False) -
                 raise AnalysisError(f'{where} (line {e.lineno}): filtered comprehension around a component converter (unrecognised idiom)')
         if isinstance(e, ast.Lambda):
             raise AnalysisError(f'{where} (line {e.lineno}): component converter inside a lambda (unrecognised idiom)')
-        cur: List[Tuple[tuple, frozenset]] = [((), frozenset([_role(fn, e.func.value)]) if is_conv(e) else frozenset())]
+        cur: List[Tuple[tuple, frozenset]] = [((), conv_roles(e) if is_conv(e) else frozenset())]
         for c in ast.iter_child_nodes(e):
             if isinstance(c, ast.expr) or isinstance(c, (ast.comprehension, ast.keyword)):
                 sub = alts(c) if isinstance(c, ast.expr) else alts_node(c)
@@ -841,10 +870,18 @@ def _r9(ctx: Ctx, m: pf.Module, classes: Dict[str, ast.ClassDef]):
         ms = W.methods(c)
         sides = {}
         is_base = cname == 'HailType'
+        helpers: Dict[str, pf.FuncDef] = {}
+        for hn, hf in list(base.items()) + list(ms.items()):
+            if hn not in (TO, TO_NA, FROM, FROM_NA, '_to_json', '_from_json', '__init__') and not any(d_ in ('property', 'classmethod') for d_ in pf.decorator_names(hf)):
+                helpers[f'self.{hn}'] = hf
+                helpers[f'{cname}.{hn}'] = hf
+        for st_ in m.tree.body:
+            if isinstance(st_, ast.FunctionDef):
+                helpers[st_.name] = st_
         for meth, side in ((TO, 'w'), (TO_NA, 'w'), (FROM, 'r'), (FROM_NA, 'r')) + ((('_to_json', 'w'), ('_from_json', 'r')) if is_base else ()):
             if meth in ms and not (is_base and meth in (TO, FROM)):
                 names = (TO, TO_NA) if side == 'w' else (FROM, FROM_NA)
-                sides[meth] = (side, _paths(ms[meth], names, include_self=is_base))
+                sides[meth] = (side, _paths(ms[meth], names, include_self=is_base, helpers=helpers))
         roles = set()
         for meth, (side, ps) in sides.items():
             for p in ps:
